@@ -140,7 +140,10 @@ def find(
     oldest = after > datetime(1980, 1, 1, tzinfo=UTC) and limit is not None
     one = timedelta(seconds=1)
     oneday = timedelta(days=1)
-    while (limit is None or len(entries) < limit) and before > after:
+    upper = before  # the window stays fixed while before walks back a day
+    while (
+        limit is None or len(entries) < limit
+    ) and before.date() >= after.date():
         journal = os.path.join(
             dawgie.context.data_dbs, 'chronicles', str(before.year)
         )
@@ -149,7 +152,7 @@ def find(
             if os.path.isdir(journal):
                 journal = os.path.join(journal, f'{before.day:02d}')
                 if os.path.isdir(journal):
-                    entries.extend(_load(after, before, journal, succeeded))
+                    entries.extend(_load(after, upper, journal, succeeded))
                 before = before - oneday
             else:
                 before = (
